@@ -388,6 +388,14 @@ def passes(measure, arg, clause=None):
     return True
 
 
+def nonfinite_failure(exc):
+    """the failure is a nan / inf result, or the LinAlgError that numpy raises when nan reaches DIIS' pinv"""
+    if isinstance(exc, Violation):
+        e = exc.info.get("err")
+        return e is not None and not math.isfinite(float(e))
+    return isinstance(exc, np.linalg.LinAlgError)
+
+
 def with_diagnosis(measure, o, flavour, net, sizes):
     """measure(opts) -> outcome, raising Violation when an oracle clause fails.
 
@@ -396,6 +404,10 @@ def with_diagnosis(measure, o, flavour, net, sizes):
       diis-local-stuck   : diis=True with local_convergence=True fails, local_convergence=False is exact (and, when the
                            run is also damped, diis=False is exact too)
       damped-half-cancel : damping==0.5 on real signed data gives nan/garbage (one-norm flavours), damping=0.45 is exact
+      diis-sign-mix      : diis=True on real signed data (one-norm flavours) fails where diis=False is exact: the sign of
+                           a real message is a gauge, the extrapolation linearly mixes sign-flipped copies of it, giving
+                           exactly 0 -> nan -> LinAlgError in pinv, or (sign-blind 'cosine' distance) a garbage message
+                           that is returned as converged
     anything else is re-raised unchanged."""
     try:
         return measure(o)
@@ -411,6 +423,9 @@ def with_diagnosis(measure, o, flavour, net, sizes):
         if o["damping"] == 0.5 and net["kind"] == "signed" and flavour in ("d1", "hd1", "hv1", "l1"):
             if passes(measure, dict(o, damping=0.45), clause):
                 raise Violation("damped-half-cancel", flavour=flavour, clause=clause) from None
+        if o["diis"] and net["kind"] == "signed" and flavour in ("d1", "hd1", "hv1", "l1"):
+            if passes(measure, dict(o, diis=False), clause):
+                raise Violation("diis-sign-mix", flavour=flavour, clause=clause, nonfinite=nonfinite_failure(exc)) from None
         raise
 
 # ---------------------------------------------------------------------------
@@ -801,6 +816,9 @@ def run_schedule(case):
         if flavour in ("d1", "hd1", "hv1", "l1") and net["kind"] == "signed" and any(o["damping"] == 0.5 for o in (a, b)):
             if passes(measure, {"a": dict(a, damping=min(a["damping"], 0.45)), "b": dict(b, damping=min(b["damping"], 0.45))}, clause):
                 raise Violation("damped-half-cancel", flavour=flavour, clause=clause) from None
+        if flavour in ("d1", "hd1", "hv1", "l1") and net["kind"] == "signed" and any(o["diis"] for o in (a, b)):
+            if passes(measure, {"a": dict(a, diis=False), "b": dict(b, diis=False)}, clause):
+                raise Violation("diis-sign-mix", flavour=flavour, clause=clause, nonfinite=nonfinite_failure(exc)) from None
         raise
     differ = [k for k in ("damping", "update", "local", "diis", "init", "normalize", "distance") if a[k] != b[k]]
     cls = ["flavour=" + flavour] + net_classes(net, deg) + ["differ=" + k for k in differ]
